@@ -115,7 +115,7 @@ class Pot:
             if total_rake_left == 0:
                 return rake_per_player
             max_rake_at_level = int(total_rake_left / len(players_at_level))
-            rake_fraction_at_level = int(level * self.rake_fraction)
+            rake_fraction_at_level = int(diff * self.rake_fraction)
             rake_at_level = min(max_rake_at_level, rake_fraction_at_level)
             for player in players_at_level:
                 rake_per_player[player] += rake_at_level
